@@ -206,10 +206,9 @@ UpgradeShape ==
                 /\ store[n].on /\ store[n].fmt \in {"sha", "plain"}
                 /\ c.cand = store[n].pw
                 /\ store'[n] = [store[n] EXCEPT !.fmt = "bcrypt", !.ver = @ + 1, !.cost = 12, !.from = "upgrade"]
-        /\ ( /\ Exists(c.n, c.sp)
-             /\ store[c.n].fmt \in {"sha", "plain"}
-             /\ Matches(store[c.n], c.cand)
-             /\ c.cand \notin LongPws )
+        /\ ( /\ Accepts(c.n, c.sp, c.cand)               \* "on a successful login": whether a matching login that is
+             /\ store[c.n].fmt \in {"sha", "plain"}       \* refused for lack of permission upgrades too is left open
+             /\ c.cand \notin LongPws )                    \* (the code does; see Passwords_Gen alt)
            => store'[c.n].fmt = "bcrypt" ]_vars
 
 \* 4. a failed attempt never writes
